@@ -317,6 +317,23 @@ static void uv__process_child_init(const uv_process_options_t* options,
   if (options->flags & UV_PROCESS_DETACHED)
     setsid();
 
+  /* The error pipe must survive the redirections below: move it out of the
+   * range of descriptors that are about to be replaced. */
+  if (error_fd < stdio_count) {
+#ifdef F_DUPFD_CLOEXEC /* POSIX 2008 */
+    n = fcntl(error_fd, F_DUPFD_CLOEXEC, stdio_count);
+#else
+    n = fcntl(error_fd, F_DUPFD, stdio_count);
+#endif
+    if (n == -1)
+      uv__write_errno(error_fd);
+#ifndef F_DUPFD_CLOEXEC /* POSIX 2008 */
+    if (uv__cloexec(n, 1))
+      uv__write_errno(error_fd);
+#endif
+    error_fd = n;
+  }
+
   /* First duplicate low numbered fds, since it's not safe to duplicate them,
    * they could get replaced. Example: swapping stdout and stderr; without
    * this fd 2 (stderr) would be duplicated into fd 1, thus making both
